@@ -1,3 +1,3 @@
 #!/bin/bash
 # builds amtool from /repo's working tree for the agreement sub-check
-cd /repo && go build -o /verif/build/amtool ./cmd/amtool
+cd /repo && GOTOOLCHAIN=local go1.26.8 build -o /verif/build/amtool ./cmd/amtool
